@@ -65,7 +65,7 @@ type Exec struct {
 	frameOn        bool
 	heapTop0       *Term
 	inputs         map[string]*Term
-	dynHints       map[*Term]types.Type // interface term -> dynamic type a requires clause demands (typeIs), for replay
+	dynHints       map[*Term]types.Type  // interface term -> dynamic type a requires clause demands (typeIs), for replay
 	dynOf          map[string]types.Type // input key -> that dynamic type
 	curProps       []string
 	sentinels      map[string]*Term
